@@ -5,7 +5,10 @@ Model of the discrete crossovers of `deap/tools/crossover.py` and the discrete m
 Conventions
 * an individual is the `List` of its genes; "in place" is modelled separately by object ids
   (section `InPlace` at the end): every operator is first a pure function from the contents
-  before the call to the contents after the call;
+  before the call to the contents after the call.  A slice is therefore a COPY, which is right
+  for `list` and `array.array`; the representation-aware model (buffers in a heap, slices that are
+  copies or numpy views) is `Core/Buffer.lean` + `Core/CrossMutBuf.lean`, proved to refine to this
+  file under the `copy` discipline (`C09.copy_refines_list`);
 * randomness: every operator takes the draws it consumes as explicit arguments, in call order
   (`randint` results as numbers, `random() < indpb` as `Bool`; the `…R` variants take the raw
   `random()` results and `indpb` and perform the comparison themselves);
